@@ -32,7 +32,8 @@ IDENT_CHARS = set("abcdefghijklmnopqrstuvwxyzABCDEFGHIJKLMNOPQRSTUVWXYZ012345678
 ERR_SHORT = {"UnknownTokenError": "U", "BadNumberError": "B", "UnclosedStringError": "S", "UnclosedInstantError": "H"}
 ERR_LONG = {v: k for k, v in ERR_SHORT.items()}
 
-REGRESSION = ["1.23457e+06", "1.5e999", "1..5", "0x1F", "0b102", "int", "in t", "\"abc", "#2024",
+REGRESSION = ["0." + "0" * 400 + "125e403", "0." + "0" * 399 + "1875e401", "0." + "0" * 1000 + "5e1001", "1." + "0" * 500 + "1e-2", "0." + "9" * 420 + "e1",
+              "1.23457e+06", "1.5e999", "1..5", "0x1F", "0b102", "int", "in t", "\"abc", "#2024",
               "#2024-01-01" + " " * 55 + "# + 1", "#" + "x" * 100 + "#", "#2024-01-01T00:00:00" + " " * 200 + "#", "\"" + "a" * 300 + "\"", "#" + "9" * 64 + "#", "#" + "9" * 65 + "#",
               "0b0b1", "0b0B1", "0x0b1", "15.0e308", "0.0e309", "1.5e308", "1.5e-999", "1...", "1. .5", "1 ..5",
               "instant", "instantx", "instant x", "toé", "to1", "in€", "²", ".²", "1.", "1.e5", "1.5.5", "1e+",
